@@ -64,7 +64,7 @@ oc, _ = vlib.run_lines_robust(drv, lines)
 if "n" in var:
     keep = [i for i, l in enumerate(lines) if not any(t.lstrip("2").startswith("A") for t in l.split()[4:])]
     lines = [lines[i] for i in keep]; om = [om[i] for i in keep]; oc = [oc[i] for i in keep]
-bad = [(l, m, c) for l, m, c in zip(lines, om, oc) if m != c and "NOGEN" not in c]
+bad = [(l, m, c) for l, m, c in zip(lines, om, oc) if m != G.strip_hashes(c) and "NOGEN" not in c]
 print("DIFF", var, len(lines), len(bad))
 for l, m, c in bad[:4]:
     print("  case", l); print("  model", m); print("  impl ", c)
